@@ -194,6 +194,15 @@ var c18Chars = []string{"Q", "J", "K", "Z", "X", "V", "W", "q", "j", "z", "@", "
 
 func c18Run(c c18Case) error {
 	var diagSeen, rejected bool
+	// which of the (up to six) streams of this case is running: forced constant
+	// choices differ per stream
+	streamIdx := 0
+	constChoice := func(n uint32) uint32 {
+		if n == 0 {
+			return 0
+		}
+		return []uint32{0, n - 1, n / 2, 1, n / 3, 2 * (n / 3)}[streamIdx] % n
+	}
 	type one struct {
 		capt  string
 		fault string
@@ -214,10 +223,7 @@ func c18Run(c c18Case) error {
 					o = callForced(nil, func(k int, n uint32) uint32 {
 						if c.Key1%4 == 1 {
 							// every draw the same index: candidates of one repeated character
-							if key == c.Key1 {
-								return 0
-							}
-							return n - 1
+							return constChoice(n)
 						}
 						if c.Char.Length > 0 && k%c.Char.Length == 0 {
 							return 0
@@ -272,22 +278,13 @@ func c18Run(c c18Case) error {
 			if c.AllFail {
 				// constant index choices: separator recipes with a requirement then
 				// reject every candidate (run 1: index 0 everywhere, run 2: last index)
-				first := key == c.Key1
 				capt = capture(func() {
-					o = callForced(nil, func(k int, n uint32) uint32 {
-						if first {
-							return 0
-						}
-						return n - 1
-					}, key, r.Generate)
+					o = callForced(nil, func(k int, n uint32) uint32 { return constChoice(n) }, key, r.Generate)
 				})
 				if c.WL.Sep.Kind == "func" {
 					ab := c.WL.Sep.Recipe.Alphabet()
 					if len(ab) > 0 && c.WL.Sep.Recipe.Length >= 2 {
-						ch := ab[0]
-						if !first {
-							ch = ab[len(ab)-1]
-						}
+						ch := ab[constChoice(uint32(len(ab)))]
 						extra = append(extra, strings.Repeat(ch, c.WL.Sep.Recipe.Length)) // the rejected separator candidate
 					}
 				}
@@ -326,10 +323,12 @@ func c18Run(c c18Case) error {
 		}
 		return res, nil
 	}
+	streamIdx = 0
 	a, err := run(c.Key1)
 	if err != nil {
 		return err
 	}
+	streamIdx = 1
 	b, err := run(c.Key2)
 	if err != nil {
 		return err
@@ -363,8 +362,8 @@ func c18Run(c c18Case) error {
 			otherFrags[f] = true
 		}
 		for _, f := range r.frags {
-			if f == "" || !strings.Contains(plain, f) {
-				continue
+			if strings.TrimSpace(f) == "" || !strings.Contains(plain, f) {
+				continue // (runs of blanks also occur in aligned output)
 			}
 			if strings.Contains(otherPlain, f) && !otherFrags[f] {
 				// the same text is printed under a stream whose secrets do not
@@ -382,10 +381,33 @@ func c18Run(c c18Case) error {
 	na, nb := normaliseDiag([]byte(a.capt)), normaliseDiag([]byte(b.capt))
 	if na != nb {
 		if x, y, bad := diagInterference(na, nb); bad {
+			// The same message in two wordings. A count can legitimately change
+			// the wording ("1 candidate was" / "# candidates were", a unit), but
+			// only between a few fixed forms; text taken from the secrets changes
+			// with every stream. Four more streams: four or more wordings of this
+			// message among the six is interference.
+			forms := map[string]bool{x: true, y: true}
+			for i := 2; i < 6; i++ {
+				streamIdx = i
+				more, err := run(ev.Mix64(c.Key1^c.Key2, uint64(i)))
+				if err != nil {
+					break
+				}
+				for _, l := range strings.Split(normaliseDiag([]byte(more.capt)), "\n") {
+					if l = strings.TrimSpace(l); l != "" && (similarLines(l, x) || similarLines(l, y)) {
+						forms[l] = true
+					}
+				}
+			}
+			if len(forms) < 4 {
+				ev.Class("diagnostic_wording_depends_on_stream_few_forms")
+				goto niDone
+			}
 			return fmt.Errorf("diagnostic output depends on the random stream beyond counts and probabilities: stream 1 wrote %q where stream 2 wrote %q\n stream 1: %q\n stream 2: %q", x, y, trunc(na, 400), trunc(nb, 400))
 		}
 		ev.Class("diagnostic_presence_depends_on_stream")
 	}
+niDone:
 	if diagSeen {
 		ev.Class("diagnostic_output_seen")
 	}
